@@ -296,7 +296,7 @@ PROPS["C20"] = dict(
     level_text="Typed views (section_data_as_rels/relas/strtab/notes, segment_data_as_notes): for ALL header values the solver decides refusal with Unexpected{Section,Segment}Type((found, expected)) iff the type differs, and otherwise a view whose "
                "first entries equal the ABI records decodable from section_data's bytes (notes: NoteIterator over those bytes with the header's alignment). section_header_by_name: for every ASCII query of 0..3 bytes the result is the first section whose name string equals the query "
                "on a generated file with prefix/suffix/duplicate/empty/non-UTF-8 names.",
-    level_note="Bound: 128-byte constant files for the typed views (header argument symbolic); one generated 9-section file for by-name (section table concrete, query symbolic, ASCII). find_common_data vs targeted accessors and .dynamic vs PT_DYNAMIC: see DESIGN (engine-B extension). usize = 64 bit.",
+    level_note="Bound: 128-byte constant files for the typed views (header argument symbolic); one generated 9-section file for by-name (section table concrete, query symbolic, ASCII). find_common_data vs targeted accessors and .dynamic vs PT_DYNAMIC: see DESIGN (engine-B extension). Typed views of ElfStream: engine-B lemmas L1/L2 (no size bound). usize = 64 bit.",
     groups=[
         K("core", ["c20::"], functions=["ElfBytes::section_data_as_{rels,relas,strtab,notes}", "ElfBytes::segment_data_as_notes", "ParsingIterator::next"],
           bounds="typed views: constant 128-byte files, header argument fully symbolic, first 2 entries; unwind 6", timeout_s=1200, jobs=8),
@@ -304,6 +304,8 @@ PROPS["C20"] = dict(
           "PT_DYNAMIC only together with .dynamic, no SHF_COMPRESSED (ELF64); dynamic via .dynamic == [sh_offset,sh_size) and via PT_DYNAMIC == [p_offset,p_filesz); "
           "L6b: 5-section tables holding all five common kinds in each of the 5 rotations of their order, all other header fields symbolic: every member is found and is its section's designated range; "
           "Lbyname: section tables of 1..3 entries, names/validity abstract (uninterpreted functions of their position in the designated string table), query abstract: first equal name wins"),
+        M(["L1", "L2"], ["L1.", "L2.", "C07.same_content", "C07.okness_coincides", "C17.cache_inv_preserved"], bounds="typed views on the STREAM side (ElfStream::section_data_as_{strtab,rels,relas,notes}, segment_data_as_notes, both classes): refused / granted exactly like the slice views and "
+          "designating the same file bytes, from any cache state satisfying the invariant that L1 shows every operation preserves, so a view does not depend on which other views (e.g. a PT_NOTE segment starting at the same offset as a section) were taken before; all u64 header fields"),
     ],
     assumptions=["by-name queries are ASCII (valid UTF-8 by construction)"] + MIRSYM_ASSUME[:4],
 )
